@@ -36,6 +36,7 @@ def run(ctx):
     from .common import import_length_predictor_agreement
     import_length_predictor_agreement(ctx, "R4g")
     r4k_request_complete_means_connect(ctx)
+    r4l_source_not_rewritten_before_need_more(ctx)
     # functions reached from stream decoders only
     reach = {}
     for b in stream_decs:
@@ -581,3 +582,54 @@ def r4k_request_complete_means_connect(ctx, rule="R4k"):
                        "decoded) but no connect item is handed out - the target is not dialled until the peer sends more, and where the later state can only emit relay items "
                        "the connect item is never produced (`expect a connect message`): a cut of the stream between the request and its first payload byte breaks the flow")
     ctx.floor(rule, "initial-state exits into a stream-relay state", 3, n_writes)
+
+
+def r4l_source_not_rewritten_before_need_more(ctx, rule="R4l"):
+    """R4l: a framed reader calls `decode` again with the *same* buffered bytes whenever the decoder answered need-more. A decoder that rewrites
+    bytes of its source buffer in place (an AEAD open `..._in_place` on a slice of `src`, a keystream, a copy into it) and then answers
+    `Ok(None)` sees its own output as input on the next call: the second attempt authenticates / parses the already-opened bytes, fails, and
+    the flow dies - for exactly those segmentations in which the need-more lies between the rewrite and the consumption. The buffer handed
+    to an in-place primitive must be detached from the source first (`split_to`, a copy), or no need-more may follow."""
+    from ..mir import op_place
+    prog = ctx.prog
+    DETACH = ("split_to", "split_off", "split", "copy_to_bytes", "to_vec", "clone", "from", "freeze", "copy_from_slice", "extend_from_slice", "to_owned", "into")
+    MUT = ("decrypt_in_place", "decrypt_in_place_detached", "encrypt_in_place", "encrypt_in_place_detached", "apply_keystream", "fill", "reverse", "swap")
+    decs = [b for b in prog.methods_of_trait_impls("Decoder", "decode") if not is_datagram(prog, b)]
+    n = 0
+    for b0 in decs:
+        fb = prog.flat(b0.defp)
+        nones = []
+        for x in fb.rpo():
+            for s_ in fb.stmts(x):
+                if s_["k"] == "assign" and not s_["p"][1] and s_["rv"]["k"] == "agg" and s_["rv"].get("variant") == "Ok" and s_["rv"]["ops"]:
+                    q = op_place(s_["rv"]["ops"][0])
+                    if q is not None and any(d[0] == "assign" and d[3]["rv"]["k"] == "agg" and d[3]["rv"].get("variant") == "None" for d in fb.defs().get(q[0], [])):
+                        nones.append(x)
+        for (blk, c, t) in fb.calls():
+            if (c.method or "") not in MUT:
+                continue
+            hit = None
+            for a in t["args"][1:]:
+                q = op_place(a)
+                if q is None or "&mut" not in fb.local_ty(q[0]) and "BytesMut" not in fb.local_ty(q[0]):
+                    continue
+                locs, _, _ = fb.slice_back([q[0]], stop_call=lambda cc: (cc.method or "") in DETACH)
+                # reaches the decoder's own source parameter by references / slicing only
+                if 2 in locs and "BytesMut" in fb.local_ty(2):
+                    via_detach = False
+                    for l_ in locs:
+                        for d in fb.defs().get(l_, []):
+                            if d[0] == "call" and (Callee(d[2]["f"]).method or "") in DETACH:
+                                via_detach = True
+                    if not via_detach:
+                        hit = q
+            if hit is None:
+                continue
+            n += 1
+            after = fb.reach_from(t["t"]) if t["t"] is not None else set()
+            bad = [x for x in nones if x in after]
+            ctx.ob(rule, b0.defp, f"source-not-rewritten-before-need-more:{c.method}", loc(t["sp"]), not bad,
+                   "no need-more answer follows the in-place rewrite of source bytes" if not bad else
+                   f"`{c.name}` rewrites bytes of the decoder's own source buffer in place and the decoder can still answer Ok(None) afterwards: the framed reader calls it again "
+                   "with the same bytes, now already opened, and the second attempt fails to authenticate - a read boundary between this rewrite and the consumption kills the flow")
+    ctx.ob(rule, "workspace", "scan", "-", True, f"{n} in-place rewrites of a decoder's source buffer", nontrivial=False, ordinal=False)
